@@ -389,6 +389,11 @@ func (h *hSpec) Call(x *gea.Exec, st *gea.State, call *ast.CallExpr, env *gea.En
 						d["notify"] = arg(i)
 					} else {
 						d["msg"] = arg(i)
+						for k, v := range claimFields(x, st, call.Args[i]) {
+							if k != "claim" {
+								d["msg."+k] = v
+							}
+						}
 					}
 				}
 			}
